@@ -69,6 +69,15 @@ TEXT_NOTE = ("Trusted: Coq kernel; extraction (ExtrOcamlBasic only); the hand-wr
              "Loader.v, Cli.v are tied to the Python source only by the differential correspondence run; harness glue; "
              "fastcore shim; 7-bit text; Python's re/str.strip/csv/PyYAML/typer are modelled or exercised, not verified.")
 CLAIMS.update({
+    "C12": {"text": "Coq theorems C12_post_order (a processor built from parts with distinct internal-unit names lists the same "
+                    "parts with every internal unit before all of its predecessors, outputs and predecessor lists in name "
+                    "order), C12_supply_order_irrelevant (any permutation of the supplied parts gives the same ports and a "
+                    "permutation of the internal units that is again sink-first), C12_cyclic_iff (refused iff the internal units "
+                    "form a cycle), C12_loaded (a loaded processor satisfies the listing orders and every unit is classified by "
+                    "its connectivity); rests on a proved correctness of networkx's Kahn-by-generations as transliterated "
+                    "(proofs/Graph_facts.v). Correspondence: ALL DAGs up to 3 (quick) / 4 (thorough) units x several supply "
+                    "orders (exhaustive), random DAGs and cyclic supplies up to 8 units, and loaded processors (exact orders).",
+            "note": TEXT_NOTE, "technique": "Coq proof (Kahn/topological-order correctness) + exhaustive and random correspondence"},
     "C13": {"text": "Coq theorems C13_loader (descriptions differing only in the letter case of connection ends, later "
                     "capability occurrences and memory-access entries load to the same processor or the same error, the "
                     "culprit of an UNDEFINED name being equal up to case since it has no first spelling), C13_loader_exact, "
